@@ -10,6 +10,8 @@ import (
 	"sort"
 	"strconv"
 	"strings"
+	"sync"
+	"sync/atomic"
 	"unsafe"
 
 	"github.com/specterops/dawgs/drivers/pg"
@@ -42,6 +44,8 @@ import (
 //	merge e f                     e.Merge(f)                         (Node.Merge: kinds, then Properties.Merge; nodes only)
 //	rmerge e f                    e.Merge(f)                         (Relationship.Merge; relationships only)
 //	addk e A,_,B | delk e A,B     Node.AddKinds / Node.DeleteKinds   (_ = nil Kind, AddKinds only; nodes only)
+//	intern <goroutines> <rounds>  concurrency probe of the kind factory: that many goroutines call graph.StringKind on the
+//	                              same NEW name at once, <rounds> names; answers `interned` when every name got ONE handle
 //	hold e                        a caller keeps the current header `ks := n.Kinds`; from then on the answer carries a
 //	                              fourth segment `H=<contents of every kept header, re-read now>`          (nodes only)
 //	json e                        e = unmarshal(marshal(e)) with encoding/json (a node inside a graph.NodeSet, a
@@ -450,6 +454,14 @@ func (r *c12Runner) Step(t []string, raw string) string {
 	if len(t) >= 3 && t[0] == "load" {
 		return r.load(t)
 	}
+	if len(t) == 3 && t[0] == "intern" {
+		g, err1 := strconv.Atoi(t[1])
+		rounds, err2 := strconv.Atoi(t[2])
+		if err1 != nil || err2 != nil || g < 1 || g > 64 || rounds < 1 || rounds > 10000 || r.n[0] == nil && r.r[0] == nil {
+			return "bad-op"
+		}
+		return r.withDump(c12InternProbe(st, g, rounds))
+	}
 	if (r.n[0] == nil && r.r[0] == nil) || len(t) < 2 {
 		return "bad-op"
 	}
@@ -742,6 +754,51 @@ func (r *c12Runner) jsonRoundTrip(e int) string {
 	return "ok"
 }
 
+// c12InternSeq makes every probed kind name new to the process-wide kind cache.
+var c12InternSeq atomic.Int64
+
+// c12InternProbe: `goroutines` goroutines ask graph.StringKind for the same, never used, kind name at the same moment
+// (released together by closing a channel), `rounds` times with a new name each. Interning is a function of the name:
+// all handles returned for one name must be == (Kinds.Remove compares handles, Kinds.Add compares names).
+func c12InternProbe(st *Stats, goroutines, rounds int) string {
+	split := 0
+	for round := 0; round < rounds; round++ {
+		name := fmt.Sprintf("c12probe%d", c12InternSeq.Add(1))
+		handles := make([]graph.Kind, goroutines)
+		start := make(chan struct{})
+		var ready, done sync.WaitGroup
+		ready.Add(goroutines)
+		done.Add(goroutines)
+		for i := 0; i < goroutines; i++ {
+			go func(i int) {
+				defer done.Done()
+				ready.Done()
+				<-start
+				handles[i] = graph.StringKind(name)
+			}(i)
+		}
+		ready.Wait()
+		close(start)
+		done.Wait()
+		for i := 1; i < goroutines; i++ {
+			if handles[i] != handles[0] {
+				split++
+				break
+			}
+		}
+		// and a later caller gets one of them for good
+		if again := graph.StringKind(name); again != graph.StringKind(name) {
+			split++
+		}
+	}
+	st.Add("branch.intern.rounds", int64(rounds))
+	if split > 0 {
+		st.Add("branch.intern.split_rounds", int64(split))
+		return "interning-split"
+	}
+	return "interned"
+}
+
 // ---------------------------------------------------------------------------------------------- consumers
 
 // c12SetField sets an unexported field of a driver struct (the pg SchemaManager kind table and the Int2ArrayEncoder
@@ -939,6 +996,16 @@ func (c12Suite) Gen(rng *Rng, tier string, w *bufio.Writer, stats *Stats) {
 		"set 0 a 2", "set 1 a 3", "set 0 a 0", "set 1 b 4", "setall 0 a:1,c:5", "setall 1 nil", "del 0 a", "del 1 a", "del 0 c", "del 1 b",
 		"gd 0 a 5", "gf 0 c 5 d,a", "clone 0 1", "clone 1 0", "pmerge 0 1", "pmerge 1 0", "pmerge 0 0", "merge 0 1", "merge 1 0",
 		"addk 0 A", "addk 0 C", "addk 1 C,_", "delk 0 A", "delk 1 A", "delk 0 C", "delk 1 B,C", "drv 0", "strip 0 a,c", "json 0",
+	}
+	// the kind factory under concurrency (a handful of cases: each probes `rounds` fresh names)
+	internRounds := 40
+	if tier == "thorough" {
+		internRounds = 400
+	}
+	for _, g := range []int{2, 4, 8, 16} {
+		for rep := 0; rep < 3; rep++ {
+			emit("intern", "nil A,B", []string{fmt.Sprintf("intern %d %d", g, internRounds), "delk 0 A", "addk 0 A"})
+		}
 	}
 	propsOnly := []string{
 		"set 0 a 2", "set 1 a 3", "set 0 b 0", "setall 1 a:1,c:5", "del 0 a", "del 1 a", "del 1 c",
